@@ -42,7 +42,8 @@ def _map_to_labels(a, labels):
 
 @st.composite
 def case_strategy(draw):
-    groups = draw(gen.group_defs())
+    # a fifth of the cases with labels whose low byte is zero in the pool (256, 512: they vanish when cast to 8 bit)
+    groups = draw(gen.group_defs(labels=(1, 2, 3, 256, 512, 5, 6, 9, 768, 11, 17, 19, 33, 200))) if draw(st.integers(0, 4)) == 0 else draw(gen.group_defs())
     defined = sorted(l for g in groups for l in g["labels"])
     it = draw(st.sampled_from(["SEMANTIC", "UNMATCHED_INSTANCE", "MATCHED_INSTANCE"]))
     pred, ref = draw(gen.pair(k=len(defined) + 1, derived_weight=3))
